@@ -39,7 +39,21 @@ def quad_case(draw):
             ps.append(0.0)
         else:
             ps.append(draw(st.floats(1e-12, 0.9e-6)) / max(eps, 1e-6) * eps)   # p*eps < 1e-6
-    return dict(n=n, eps=eps, p=ps, seed=draw(st.integers(0, 2 ** 31 - 1)), linear=draw(st.booleans()))
+    # integer-valued parameter vectors handed over as Python ints / an integer array are legitimate input ([2, 3, 1], [0, 0])
+    container = draw(st.sampled_from(['floats', 'floats', 'floats', 'ints', 'int-array']))
+    if container != 'floats':
+        ps = [float(draw(st.integers(-6, 9))) for _ in range(n)]
+    return dict(n=n, eps=eps, p=ps, seed=draw(st.integers(0, 2 ** 31 - 1)), linear=draw(st.booleans()), container=container)
+
+
+def as_given(case):
+    """the parameter vector in the container the case asks for"""
+    c = case.get('container', 'floats')
+    if c == 'ints':
+        return [int(v) for v in case['p']]
+    if c == 'int-array':
+        return np.array([int(v) for v in case['p']])
+    return list(case['p'])
 
 
 def quad_parts(case):
@@ -80,7 +94,7 @@ def r1(case, rec):
     rec.case(case, case['n'] >= 2 or any(one) or (p == 0).any(), ['n=%d' % case['n']] + (['one-sided'] if any(one) else []) +
              (['zero-param'] if (p == 0).any() else []))
     with dadi_call('get_hess'):
-        H = Godambe.get_hess(f, list(p), eps, args=(0.0,))
+        H = Godambe.get_hess(f, as_given(case), eps, args=(0.0,))
     fscale = max(abs(0.5 * x @ A @ x + b @ x + c) for x in calls) + 1.0
     for i in range(case['n']):
         for j in range(case['n']):
@@ -107,9 +121,9 @@ def r2(case, rec):
         calls.append(x.copy())
         return 0.5 * x @ A @ x + b @ x + c
     h, one = steps(p, eps)
-    rec.case(case, case['n'] >= 2 or any(one), ['linear' if case['linear'] else 'quadratic'])
+    rec.case(case, case['n'] >= 2 or any(one), ['linear' if case['linear'] else 'quadratic', case.get('container', 'floats')])
     with dadi_call('get_grad'):
-        g = np.asarray(Godambe.get_grad(f, list(p), eps)).ravel()
+        g = np.asarray(Godambe.get_grad(f, as_given(case), eps)).ravel()
     exact = A @ p + b
     fscale = max(abs(0.5 * x @ A @ x + b @ x + c) for x in calls) + 1.0
     for i in range(case['n']):
